@@ -227,6 +227,10 @@ impl C19 {
     let vb = [(xun % 12 + 10) % 12, (xun % 12 + 11) % 12];
     let got: Vec<String> = sc.get_extra_earth_branches().iter().map(|x| x.get_name()).collect();
     c.eq("pillar", "void_branches", pillar_name(p as i64), format!("{:?}", vec![BRANCHES[vb[0]], BRANCHES[vb[1]]]), format!("{:?}", got));
+    // Peng Zu's hundred taboos: the stem line opens with the stem, the branch line with the branch
+    let pz = tyme4rs::tyme::culture::peng_zu::PengZu::from_sixty_cycle(sc.clone());
+    c.eq("pillar", "peng_zu_stem_line", pillar_name(p as i64), STEMS[s].into(), pz.get_peng_zu_heaven_stem().get_name().chars().next().map(|x| x.to_string()).unwrap_or_default());
+    c.eq("pillar", "peng_zu_branch_line", pillar_name(p as i64), BRANCHES[b].into(), pz.get_peng_zu_earth_branch().get_name().chars().next().map(|x| x.to_string()).unwrap_or_default());
     // foetus spirit of the day: 甲己门 乙庚碓磨 丙辛厨灶 丁壬仓库 戊癸房床 / 子午碓 丑未厕 寅申炉 卯酉门 辰戌栖 巳亥床
     let fd = FetusDay::new(sc.clone());
     c.eq("pillar", "fetus_stem_part", pillar_name(p as i64), ["门", "碓磨", "厨灶", "仓库", "房床"][s % 5].into(), fd.get_fetus_heaven_stem().get_name());
